@@ -1,6 +1,7 @@
 package main
 
 import (
+	"crypto/sha1"
 	"time"
 	"fmt"
 	goast "go/ast"
@@ -473,6 +474,17 @@ func scramble(n ast.Node) {
 
 func init() {
 	// c18 reads ALL inputs first, then checks: repeatability, order independence, concurrency, no shared state
+	// c18-each: one line per case, in the order given: entry, input, digest of the complete result (tree with positions, error messages, SQL)
+	commands["c18-each"] = func(args []string) {
+		stdinLines(func(line string) {
+			f := strings.Fields(line)
+			if len(f) == 2 {
+				if e := entryByName(f[0]); e != nil {
+					fmt.Fprintf(out, "%s %s %x\n", f[0], f[1], sha1.Sum([]byte(fullResult(e, unhx(f[1])))))
+				}
+			}
+		})
+	}
 	commands["c18"] = func(args []string) {
 		if len(args) > 0 {
 			globalSeed = int64(atoi(args[0]))
